@@ -252,3 +252,13 @@ def shared_geometry(ctx: Ctx) -> None:
     from . import C18 as _c18
     from .common import support
     support(ctx, [_c18.r5, _c18.r6], {"Rectangle.rectangle_grid", "Rectangle.duplicate"})
+
+
+@rule("C10", "R6.rigid-recentring", "SHARED(C14)",
+      "a movable hard module is moved rigidly: recenter_rectangles adds one (dx, dy) -- the new centre minus the area-weighted "
+      "centroid -- to every rectangle and does nothing else to them (no per-rectangle clamp); the C14 rule evaluated for the "
+      "re-centring this stage calls", floor=2)
+def shared_recentre(ctx: Ctx) -> None:
+    from . import C14 as _c14
+    from .common import support
+    support(ctx, [_c14.r4], {"Module.recenter_rectangles", "Module.calculate_center_from_rectangles"})
